@@ -260,7 +260,7 @@ func init() {
 				if err := json.Unmarshal(raw, &in); err != nil {
 					return err
 				}
-				if err := c.Emit("reverse", in, runReverse(in)); err != nil {
+				if err := c.Emit("reverse", withProp(in), runReverse(in)); err != nil {
 					return err
 				}
 			}
@@ -268,7 +268,7 @@ func init() {
 		}
 		for i := 0; i < c.N; i++ {
 			in := genReverseIn(c)
-			if err := c.Emit("reverse", in, runReverse(in)); err != nil {
+			if err := c.Emit("reverse", withProp(in), runReverse(in)); err != nil {
 				return err
 			}
 		}
